@@ -58,6 +58,13 @@ def params() -> List[Dict[str, Any]]:
                 out.append(tp)
     finally:
         os.chdir(cwd)
+    try:  # generated units (compositions / call forms the plugin testcases do not contain)
+        from mc import genunits
+        for tp in genunits.testcases():
+            tp["pid"] = f"{tp['context']}/{tp['component']}/{tp['testcase']}"
+            out.append(tp)
+    except Exception:
+        pass
     _PARAMS = out
     _BY_PID.update({tp["pid"]: tp for tp in out})
     return out
@@ -166,13 +173,18 @@ def override_dtypes(specs, meta, dtype_override):
 
 
 def dtype_variants(tp: Dict[str, Any]) -> List[Dict[str, str]]:
-    """Mixed-dtype variants: one float input at a time given as int32 (only for testcases that fix shapes, not dtypes)."""
-    if tp.get("input_shapes") is None or tp.get("input_dtypes") or tp.get("input_params") or double(tp):
+    """Mixed-dtype variants: one float input at a time given as int32 (testcases that do not pin input dtypes)."""
+    if tp.get("input_dtypes") or tp.get("input_params") or double(tp):
         return []
-    shapes = tp.get("input_shapes") or []
-    if not (1 <= len(shapes) <= 3):
+    if tp.get("input_shapes") is None and tp.get("input_values") is None:
         return []
-    return [{str(j): "int32"} for j in range(len(shapes))]
+    try:
+        _specs, meta, _vals = input_meta(tp)
+    except Exception:
+        return []
+    if not (1 <= len(meta) <= 3):
+        return []
+    return [{str(j): "int32"} for j, (_sh, dt) in enumerate(meta) if np.dtype(dt).kind == "f"]
 
 
 def export(tp: Dict[str, Any], fn=None, dtype_override=None, **overrides):
